@@ -11,6 +11,8 @@ Line-protocol driver for the C12 model (merge of partial query results above the
   result <id> all=<0|1> limit=<n> sel=<fn>:<field>,.. ord=<fn>:<field>:<0|1>,.. [hav=<op>:<thr>]
   plan-shape <live> <n>                flow.BuildPhysicalPlan: number of targets / executors / distinctness
   route <n> <shard>:<hash> ...         row routing (see Routing below)
+  families <id>:<ts>:<fam> ...         the family iterator over one shard group (rows in batch order;
+                                       fam = CalcFamilyTime(ts), computed by the real calculator)
   lc-new <k> <holes>                   a leaf's grouping context for k group-by keys; holes = `-` or
                                        <key>:<id>,.. = ids the node's dictionary has no value for
   lc-fork | lc-ids <id>,..  | lc-complete <-|failing key> | lc-send | lc-tr <id>,..
@@ -26,6 +28,7 @@ State line after `new`/`resp`:  exp=<n> tol=<n> err=<-|nf|er> agg=<0|1> done=<0|
 import LinVerif.Util.Proto
 import LinVerif.Model.RootMerge
 import LinVerif.Model.LeafCollect
+import LinVerif.Model.RowRoute
 import LinVerif.Generated.C12
 
 namespace LinVerif.Driver.C12
@@ -374,6 +377,19 @@ def stepLc (st : DSt) (ws : List String) : DSt × String :=
     | _, _ => (st, "bad-op")
   | _ => (st, "bad-op")
 
+/-- the rows of one shard group through BrokerBatchShardFamilyIterator (Model/RowRoute.lean) -/
+def doFamilies (toks : List String) : String :=
+  let parsed? : Option (List (Nat × Nat × Nat)) := toks.mapM (fun w => match w.splitOn ":" with
+    | [a, b, c] => do let x ← a.toNat?; let y ← b.toNat?; let z ← c.toNat?; some (x, y, z)
+    | _ => none)
+  match parsed? with
+  | none => "bad-op"
+  | some ps =>
+    if ps.isEmpty then "bad-op" else
+    let fam : Nat → Nat := fun t => ((ps.find? (fun p => p.2.1 == t)).map (fun p => p.2.2)).getD 0
+    let groups := RowRoute.familyGroups fam (ps.map (fun p => (p.1, p.2.1)))
+    " ".intercalate (groups.map (fun g => s!"{g.1}:{",".intercalate ((sortNat (g.2.map Prod.fst)).map toString)}"))
+
 def step (st : DSt) (ws : List String) : DSt × String :=
   match ws with
   | ["plan", a, s, sc] =>
@@ -452,6 +468,7 @@ def step (st : DSt) (ws : List String) : DSt × String :=
       (st, s!"targets={plan.length} executors={(executors plan).length} distinct={if (plan.map Prod.fst).eraseDups.length == plan.length then 1 else 0}")
     | _, _ => (st, "bad-op")
   | "route" :: rest => (st, doRoute rest)
+  | "families" :: rest => (st, doFamilies rest)
   | w :: _ => if w.startsWith "lc-" then stepLc st ws else (st, "bad-op")
   | _ => (st, "bad-op")
 
